@@ -65,7 +65,9 @@ Qed.
 (* ---------------------------------------------------------------------------------------------
    Column formatting of a detokenized line (src/lang/merlin/formatter.rs format_tokens, Variable style):
    each column is followed by max 1 (width - length) blanks (width 1 after the third column), a column starting with
-   a semicolon is pushed right by the widths of the columns it skipped, and the result loses its trailing blanks. *)
+   a semicolon is pushed right by the widths of the columns it skipped, and the line ends with its last column: the padding behind
+   it is dropped, blanks that belong to it are kept (an empty last column is kept by the padding of the column in front of it).
+   In front of a comment column there are at least two blanks: one blank can be part of an operand (file names, macro arguments). *)
 Definition spaces (n : nat) : list N := repeat 32 n.
 Fixpoint sum_nat (l : list nat) : nat := match l with [] => O | x :: r => (x + sum_nat r)%nat end.
 Fixpoint fmt_cols (widths : list nat) (idx : nat) (cols : list (list N)) : list N :=
@@ -77,9 +79,19 @@ Fixpoint fmt_cols (widths : list nat) (idx : nat) (cols : list (list N)) : list 
       let pad := Nat.max 1 (w - length col) in
       spaces pre ++ col ++ spaces pad ++ fmt_cols widths (S idx) r
   end.
-Fixpoint trim_end_rev (l : list N) : list N := match l with 32 :: r => trim_end_rev r | _ => l end.
-Definition trim_end (l : list N) : list N := rev (trim_end_rev (rev l)).
-Definition fmt_line (widths : list nat) (cols : list (list N)) : list N := trim_end (fmt_cols widths 0 cols).
+Fixpoint fmt_upto (widths : list nat) (idx : nat) (cols : list (list N)) : list N :=
+  match cols with
+  | [] => []
+  | col :: r =>
+      let pre := match col with 59 :: _ => sum_nat (skipn idx (firstn 3 widths)) | _ => O end in
+      let w := if Nat.ltb idx 3 then nth idx widths 1%nat else 1%nat in
+      let pad := Nat.max (match r with (59 :: _) :: _ => 2 | _ => 1 end) (w - length col) in
+      match r with
+      | [] => spaces pre ++ col
+      | _ => spaces pre ++ col ++ spaces pad ++ fmt_upto widths (S idx) r
+      end
+  end.
+Definition fmt_line (widths : list nat) (cols : list (list N)) : list N := fmt_upto widths 0 cols.
 
 (* the blank-separated words of a line *)
 Fixpoint words_aux (cur : list N) (l : list N) : list (list N) :=
@@ -120,30 +132,52 @@ Proof.
     + intros E. apply (f_equal (@length N)) in E. rewrite rev_length in E. discriminate.
 Qed.
 
-Lemma words_aux_snoc_blank l : forall cur, words_aux cur (l ++ [32]) = words_aux cur l.
+Lemma words_aux_last col : ~ In 32 col -> words_aux [] col = filter nonnil [col].
 Proof.
-  induction l as [|c l IH]; intros cur.
-  - cbn [app words_aux]. change (32 =? 32) with true. destruct cur; reflexivity.
-  - cbn [app words_aux]. destruct (c =? 32); [destruct cur|]; rewrite ?IH; reflexivity.
+  intros H. rewrite <- (app_nil_r col) at 1. rewrite words_aux_col by exact H. rewrite app_nil_r. cbn [words_aux filter].
+  destruct col as [|c col]; [reflexivity|]. cbn [nonnil].
+  destruct (rev (c :: col)) eqn:E; [apply (f_equal (@length N)) in E; rewrite rev_length in E; discriminate|].
+  rewrite <- E, rev_involutive. reflexivity.
 Qed.
-Lemma words_trim l : words (trim_end l) = words l.
+
+Lemma minpad_pos (r : list (list N)) : (0 < match r with (59%N :: _) :: _ => 2 | _ => 1 end)%nat.
+Proof. destruct r as [|[|x c] r']; try lia. destruct x as [|p]; [lia|]. do 6 (destruct p as [p|p|]; try lia). Qed.
+
+Theorem fmt_upto_words widths : forall cols idx, Forall (fun c => ~ In 32 c) cols ->
+  words (fmt_upto widths idx cols) = filter nonnil cols.
 Proof.
-  unfold trim_end. rewrite <- (rev_involutive l) at 2. generalize (rev l) as m. clear l.
-  induction m as [|c m IH]; [reflexivity|].
-  cbn [trim_end_rev]. destruct (N.eqb_spec c 32) as [->|E].
-  - rewrite IH. cbn [rev]. unfold words. rewrite words_aux_snoc_blank. reflexivity.
-  - assert (X : trim_end_rev (c :: m) = c :: m).
-    { destruct c as [|p]; [reflexivity|]. do 6 (destruct p as [p|p|]; try reflexivity). exfalso; apply E; reflexivity. }
-    cbn [trim_end_rev] in X. rewrite X. reflexivity.
+  induction cols as [|col r IH]; intros idx H; [reflexivity|].
+  inversion H as [|? ? Hc Hr]; subst. cbn [fmt_upto]. destruct r as [|c2 r'].
+  - unfold words. rewrite words_aux_spaces. apply words_aux_last. exact Hc.
+  - cbn [filter]. unfold words.
+    rewrite words_aux_spaces, words_aux_col by exact Hc. rewrite app_nil_r.
+    destruct col as [|c col].
+    + cbn [rev nonnil]. rewrite words_aux_spaces. apply IH; exact Hr.
+    + rewrite words_aux_end.
+      * rewrite rev_involutive. cbn [nonnil]. f_equal. apply IH; exact Hr.
+      * eapply Nat.lt_le_trans; [apply (minpad_pos (c2 :: r')) | apply Nat.le_max_l].
+      * intros E. apply (f_equal (@length N)) in E. rewrite rev_length in E. discriminate.
 Qed.
 
 Theorem merlin_format_keeps_columns widths cols : Forall (fun c => ~ In 32 c) cols ->
   words (fmt_line widths cols) = filter nonnil cols.
-Proof. intros H. unfold fmt_line. rewrite words_trim. apply fmt_cols_words. exact H. Qed.
+Proof. intros H. unfold fmt_line. apply fmt_upto_words. exact H. Qed.
+
+(* the line ends with its last column exactly as it is, blanks of its own included: nothing of it is trimmed, nothing follows it *)
+Theorem merlin_format_keeps_last_column widths : forall cols idx c, exists t, fmt_upto widths idx (cols ++ [c]) = t ++ c.
+Proof.
+  induction cols as [|col r IH]; intros idx c.
+  - cbn [app fmt_upto]. eexists; reflexivity.
+  - destruct (IH (S idx) c) as [t Ht]. cbn [app fmt_upto]. destruct (r ++ [c]) eqn:E; [destruct r; discriminate|].
+    rewrite Ht. eexists. rewrite !app_assoc. reflexivity.
+Qed.
 
 (* a line without a label starts with a blank (that is how the parser tells the label column from the others) *)
-Theorem merlin_format_label_column widths r : exists t, fmt_cols widths 0 ([] :: r) = 32 :: t.
+Theorem merlin_format_label_column widths r : r <> [] -> exists t, fmt_line widths ([] :: r) = 32 :: t.
 Proof.
-  cbn [fmt_cols]. change (Nat.ltb 0 3) with true. cbv iota. cbn [length app spaces repeat].
-  destruct (Nat.max 1 (nth 0 widths 1%nat - 0)) eqn:E; [lia|]. cbn [repeat app]. eexists; reflexivity.
+  intros Hr. unfold fmt_line. cbn [fmt_upto]. destruct r as [|c r']; [contradiction|].
+  change (Nat.ltb 0 3) with true. cbv iota. cbn [length app spaces repeat].
+  assert (P : (0 < Nat.max (match c :: r' with (59%N :: _) :: _ => 2 | _ => 1 end) (nth 0 widths 1%nat - 0))%nat)
+    by (eapply Nat.lt_le_trans; [apply (minpad_pos (c :: r')) | apply Nat.le_max_l]).
+  destruct (Nat.max _ _) eqn:E; [lia|]. cbn [repeat app]. eexists; reflexivity.
 Qed.
